@@ -6,6 +6,7 @@ import AidlVerif.Props.C10
 import AidlVerif.Props.C09
 import AidlVerif.Props.C08
 import AidlVerif.Props.C06
+import AidlVerif.Driver.Walk
 
 /-
   Model driver: one JSON case per input line, one JSON verdict per output line.
@@ -199,6 +200,44 @@ def opValidate (prop : String) (j : Json) : R Verdict := do
       if prop == p || prop == "all" then v := h ctx v
   return v
 
+def opWalk (prop : String) (j : Json) : R Verdict := do
+  let impl ← fld j "impl"
+  let outcome ← str (← fld impl "outcome")
+  if outcome ≠ "ok" then
+    return { corr := [("outcome", false)], detail := [("impl_outcome", Json.str outcome)] }
+  let out ← list fileResult (← fld impl "out")
+  let walks ← list Walk.fileWalk (← fld impl "walks")
+  let mut v : Verdict := {}
+  let mut acc : Walk.Result := {}
+  let mut nfiles := 0
+  for w in walks do
+    match out.find? (fun fr => fr.id == w.id) with
+    | some { ast := some b, .. } =>
+      let r := Walk.checkFile b w
+      nfiles := nfiles + 1
+      acc := { corr15 := acc.corr15 && r.corr15, spec15 := acc.spec15 && r.spec15,
+               corr16 := acc.corr16 && r.corr16, spec16 := acc.spec16 && r.spec16,
+               assume16 := acc.assume16 && r.assume16, corr17 := acc.corr17 && r.corr17,
+               nsyms := acc.nsyms + r.nsyms, npos := acc.npos + r.npos }
+    | _ => acc := { acc with corr15 := false }
+  -- every file with a tree must have been walked
+  let expectedWalks := (out.filter (fun fr => fr.ast.isSome)).length
+  if nfiles ≠ expectedWalks then acc := { acc with corr15 := false }
+  if prop == "C15" || prop == "all" then
+    v := (v.addCorr "C15" acc.corr15).addSpec "C15" acc.spec15
+    v := { v with nontrivial := acc.nsyms > 3, dist := bump v.dist s!"symbols~{min (acc.nsyms / 10 * 10) 100}" }
+  if prop == "C16" || prop == "all" then
+    v := ((v.addCorr "C16" acc.corr16).addSpec "C16" acc.spec16).addAssume "C16" acc.assume16
+    v := { v with nontrivial := acc.npos > 0, dist := bump v.dist s!"positions~{min (acc.npos / 100 * 100) 2000}" }
+  if prop == "C17" || prop == "all" then
+    let reported := walks.map fun w => (w.id, w.key, w.symbols.map fun s => (s.tag, s.name, s.qn, s.r))
+    v := (v.addCorr "C17" acc.corr17).addSpec "C17" (Spec.C17.holdsProject out reported)
+    let nres := (out.flatMap fun fr => match fr.ast with
+      | some b => (allTypesPre b).filter (fun t => match t.kind with | .resolved _ rk => Spec.C17.isItemKind rk | _ => false)
+      | none => []).length
+    v := { v with nontrivial := acc.nsyms > 3, dist := bump v.dist s!"refs_to_items={min nres 5}" }
+  return v
+
 def handle (prop : String) (line : String) : Json :=
   match Json.parse line with
   | .error e => Json.mkObj [("error", s!"json: {e}")]
@@ -208,6 +247,7 @@ def handle (prop : String) (line : String) : Json :=
       let op ← str (← fld j "op")
       match op with
       | "validate" => opValidate prop j
+      | "walk" => opWalk prop j
       | _ => throw s!"unknown op {op}" : R Verdict) with
     | .ok v => v.toJson case
     | .error e => Json.mkObj [("case", case), ("error", e)]
